@@ -327,7 +327,12 @@ def weight_array(cfg):
     shape = tuple(cfg["shape"])
     if w["kind"] == "const":
         return np.full(shape, float(w["val"]))
-    return np.random.default_rng(40_000 + w["id"]).uniform(0.5, 2.0, size=shape)
+    a = np.random.default_rng(40_000 + w["id"]).uniform(0.5, 2.0, size=shape)
+    if w.get("dtype") in ("uint8", "int16"):
+        a = np.round(a * 12.0) + 10.0  # integer-valued maps 16..34: their squares leave uint8
+    elif w.get("dtype") in ("float32", "float16"):
+        a = a.astype(w["dtype"]).astype(float)  # exactly representable in the narrow type
+    return a
 
 
 def make_image(arr, cfg):
@@ -372,6 +377,10 @@ def build(cfg, num_iter=None, form="info"):
                                               for v in cfg["voxel_size"]])
     w = weight_array(cfg)
     wimg = None if w is None else make_image(w, cfg)
+    if wimg is not None and (cfg.get("weight") or {}).get("dtype"):
+        # the weight map in the dtype it was stored in (an 8-bit label-derived map, a float32 file); same values
+        wimg = darsia.Image(np.asarray(w).astype(cfg["weight"]["dtype"]), space_dim=len(cfg["shape"]), scalar=True,
+                            dimensions=[float(s_) * float(v_) for s_, v_ in zip(cfg["shape"], cfg["voxel_size"])])
     opts = make_options(cfg, num_iter, form)
     cls = wmod.WassersteinDistanceNewton if cfg["method"] == "newton" else wmod.WassersteinDistanceBregman
     return cls(grid, wimg, opts)
@@ -732,6 +741,8 @@ class C04Engine(Engine):
         if r.random() < 0.4:
             cfg["weight"] = r.choice([{"kind": "const", "val": r.choice([0.5, 2.0, 3.0])},
                                       {"kind": "array", "id": r.randint(0, 999)}])
+            if cfg["weight"]["kind"] == "array" and r.random() < 0.3:
+                cfg["weight"]["dtype"] = r.choice(["uint8", "uint8", "float32", "int16", "float16"])
         tol = r.choice(["never", "never", "default", "moderate"])
         if tol == "never":
             cfg.update(tol_residual=1e-300, tol_increment=1e-300, tol_distance=1e-300)
